@@ -2039,7 +2039,7 @@ seq_t dtw_warping_paths_affinity_ndim(seq_t *wps,
         wpsi = 1; // index for min_ci
         if (only_triu) {
             if (ci < ri) {
-                for (; ci<ri; ci++) {
+                for (; ci<ri && ci<max_ci; ci++) {
                     wps[ri_width + wpsi] = -INFINITY;
                     wpsi++;
                 }
@@ -2086,7 +2086,7 @@ seq_t dtw_warping_paths_affinity_ndim(seq_t *wps,
         ci = min_ci;
         if (only_triu) {
             if (ci < ri) {
-                for (; ci<ri; ci++) {
+                for (; ci<ri && ci<max_ci; ci++) {
                     wps[ri_width + wpsi] = -INFINITY;
                     wpsi++;
                 }
@@ -2132,7 +2132,7 @@ seq_t dtw_warping_paths_affinity_ndim(seq_t *wps,
         wpsi = 1;
         if (only_triu) {
             if (ci < ri) {
-                for (; ci<ri; ci++) {
+                for (; ci<ri && ci<max_ci; ci++) {
                     wps[ri_width + wpsi] = -INFINITY;
                     wpsi++;
                 }
@@ -2188,7 +2188,7 @@ seq_t dtw_warping_paths_affinity_ndim(seq_t *wps,
         }
         if (only_triu) {
             if (ci < ri) {
-                for (; ci<ri; ci++) {
+                for (; ci<ri && ci<l2; ci++) {
                     wps[ri_width + wpsi] = -INFINITY;
                     wpsi++;
                 }
@@ -2374,7 +2374,7 @@ seq_t dtw_warping_paths_affinity_ndim_euclidean(seq_t *wps,
         wpsi = 1; // index for min_ci
         if (only_triu) {
             if (ci < ri) {
-                for (; ci<ri; ci++) {
+                for (; ci<ri && ci<max_ci; ci++) {
                     wps[ri_width + wpsi] = -INFINITY;
                     wpsi++;
                 }
@@ -2422,7 +2422,7 @@ seq_t dtw_warping_paths_affinity_ndim_euclidean(seq_t *wps,
         ci = min_ci;
         if (only_triu) {
             if (ci < ri) {
-                for (; ci<ri; ci++) {
+                for (; ci<ri && ci<max_ci; ci++) {
                     wps[ri_width + wpsi] = -INFINITY;
                     wpsi++;
                 }
@@ -2469,7 +2469,7 @@ seq_t dtw_warping_paths_affinity_ndim_euclidean(seq_t *wps,
         wpsi = 1;
         if (only_triu) {
             if (ci < ri) {
-                for (; ci<ri; ci++) {
+                for (; ci<ri && ci<max_ci; ci++) {
                     wps[ri_width + wpsi] = -INFINITY;
                     wpsi++;
                 }
@@ -2526,7 +2526,7 @@ seq_t dtw_warping_paths_affinity_ndim_euclidean(seq_t *wps,
         }
         if (only_triu) {
             if (ci < ri) {
-                for (; ci<ri; ci++) {
+                for (; ci<ri && ci<l2; ci++) {
                     wps[ri_width + wpsi] = -INFINITY;
                     wpsi++;
                 }
